@@ -24,7 +24,7 @@ def leaf_cmd(name, *groups):
 
 
 BASE = {
-    'TextPool': ['a', ' ', '\n', '\n\n', 'b c', '(', ', x', ' y ', '[', ']', '\\\\', '\\%', '\\$', 'a\\&b'],
+    'TextPool': ['a', ' ', '\n', '\n\n', 'b c', '(', ', x', ' y ', '[', ']', '\\\\', '\\%', '\\$', 'a\\&b', 'é ü'],
     'MathTextPool': ['x', '+ y', '(', '[', ']', '\\$'],
     'ComPool': ['c', ''],
     'CmdNames': ['a', 'bb'],
